@@ -704,6 +704,29 @@ func (c *Ctx) ruleMarshalReproc() {
 				}
 			}
 		}
+		// the loop is left only when the counter reached Len(): no early exit (a nil entry must not end it)
+		for bi, succs := range fa.edgeOut {
+			if !blocks[bi] {
+				continue
+			}
+			for k, sb := range bi.Succs {
+				if blocks[sb] || k >= len(succs) {
+					continue
+				}
+				for _, s := range succs[k] {
+					iff, ok := hdr.Instrs[len(hdr.Instrs)-1].(*ssa.If)
+					okExit := false
+					if ok {
+						if v, known := fa.knownTerm(s, aTR, fa.term(s, iff.Cond)); known && !v {
+							okExit = true
+						}
+					}
+					if !okExit {
+						problems = append(problems, fmt.Sprintf("the re-processing loop can be left early (block %d -> %d): later nested entries would stay raw slices", bi.Index, sb.Index))
+					}
+				}
+			}
+		}
 		if len(rec) != 1 {
 			problems = append(problems, fmt.Sprintf("%d recursive decodes per iteration, expected one", len(rec)))
 		} else {
@@ -729,6 +752,51 @@ func (c *Ctx) ruleMarshalReproc() {
 	} else {
 		sort.Strings(problems)
 		rep.bad("R-MARSHAL", "marshalDefault", "nested entries", pos, strings.Join(uniq(problems), "; "))
+	}
+}
+
+// ruleDeenvelope: an envelope is stripped only while the slice holds exactly one
+// element and that element is itself a slice; what is kept is that element.
+func (c *Ctx) ruleDeenvelope() {
+	rep := c.rep
+	tt := c.eng.tt
+	fn := c.anchor("R-TBL", "deenvelopeSingleStack")
+	if fn == nil {
+		return
+	}
+	fa := c.eng.analyze(fn, nil)
+	var problems []string
+	// every type assertion to []any in the function is on element 0 of a slice known to have length 1
+	n := 0
+	for _, b := range fn.Blocks {
+		for _, in := range b.Instrs {
+			ta, ok := in.(*ssa.TypeAssert)
+			if !ok {
+				continue
+			}
+			n++
+			for _, s := range fa.statesBefore(ta) {
+				xt := fa.term(s, ta.X)
+				okEl := xt.K == "L" && xt.A != nil && xt.A.K == "IA" && xt.A.B != nil && xt.A.B.K == "C" && xt.A.B.S == "0"
+				if !okEl {
+					problems = append(problems, "the element examined as a possible inner slice is not element 0")
+					continue
+				}
+				lt := tt.mk(Term{K: "LEN", A: xt.A.A})
+				if !c.eqInt(fa, s, lt, c.intConst(1), nil) {
+					problems = append(problems, "an envelope is stripped from a slice not known to hold exactly one element (a one-element stack holding a nested stack would lose a level)")
+				}
+			}
+		}
+	}
+	if n != 1 {
+		problems = append(problems, fmt.Sprintf("%d type assertions, expected one", n))
+	}
+	if len(problems) == 0 {
+		rep.ok("R-TBL", "deenvelopeSingleStack", "envelopes", c.p.pos(fn.Pos()), "only a slice of exactly one element whose element 0 is a slice is unwrapped")
+	} else {
+		sort.Strings(problems)
+		rep.bad("R-TBL", "deenvelopeSingleStack", "envelopes", c.p.pos(fn.Pos()), strings.Join(uniq(problems), "; "))
 	}
 }
 
@@ -886,6 +954,10 @@ func (c *Ctx) ruleMarshalOut() {
 					continue
 				}
 				if initVal {
+					// an initialised receiver is never re-seated: its capacity, options and content stay
+					if _, reseated := s.heap[handle.key]; reseated {
+						problems = append(problems, "an initialised receiver is replaced by the decoded stack (its capacity, options and content are lost) instead of gaining one element")
+					}
 					// gains at most one element: exactly one Push executed iff something was decoded
 					done := 0
 					for _, pc := range pushes {
@@ -933,7 +1005,21 @@ func (c *Ctx) ruleMarshalOut() {
 						continue
 					}
 					if et == fa.callResultTerm(s, md, 2) {
-						okF = true // non-nil by the outcome rule of marshalDefault (no Stack, no Condition on this path)
+						// non-nil by the outcome rule of marshalDefault - provided it yielded neither a Stack nor a Condition here
+						neither := 0
+						for k, guard := range []string{"Stack.IsInit", "Condition.IsInit"} {
+							rk := fa.callResultTerm(s, md, k)
+							for _, ic := range c.findCalls(fn, guard) {
+								if fa.term(s, ic.Call.Args[0]) == rk {
+									if v, known := fa.knownTerm(s, aTR, fa.term(s, ic)); known && !v {
+										neither++
+									}
+								}
+							}
+						}
+						if neither >= 2 {
+							okF = true
+						}
 					}
 				}
 				if !okF {
